@@ -2,6 +2,7 @@ import EaselModel.Core.Proto
 import EaselModel.Msa.Model
 import EaselModel.Msa.Model2
 import EaselModel.Msa.Model3
+import EaselModel.Msa.Sample
 import EaselModel.Msa.AbcTables
 /-! Line-protocol driver for the C15 model (alignment transformations, WUSS). Mirrors harness/h_msaops.c. -/
 open EaselModel EaselModel.Proto EaselModel.Msa
@@ -181,6 +182,24 @@ def step (s : S) (line : String) : S × String :=
                         flags := if (argNat? ws "haswgts").getD 0 != 0 then m.flags ||| flagHasWgts else m.flags }
       ({ s with a := some m }, "ok")
     | none => (s, "bad-op")
+  | "setstr" :: _ | "fmtstr" :: _ =>
+    let fld : Option StrField := match arg? ws "f" with
+      | some "name" => some .name | some "desc" => some .desc | some "acc" => some .acc | some "au" => some .au
+      | some "sqname" => some .sqname | some "sqacc" => some .sqacc | some "sqdesc" => some .sqdesc | _ => none
+    match s.a, fld with
+    | some m, some f =>
+      let idx := (argInt? ws "i").getD 0
+      let v := argStr? ws "v"
+      if idx < 0 then (s, "bad-op") else
+      if ws.head? == some "setstr" then
+        let n := (argInt? ws "n").getD (-1)
+        if n > (v.getD []).length then (s, "bad-op") else
+        let r := setStr m f idx v n
+        ({ s with a := some r.msa }, resLine r)
+      else
+        let r := formatStr m f idx (v.map fun b => fmtSD b ((argInt? ws "k").getD 0))
+        ({ s with a := some r.msa }, resLine r)
+    | _, _ => (s, "bad-op")
   | "cut" :: _ =>
     match s.a, argNat? ws "i", arg? ws "v" with
     | some m, some k, some v =>
@@ -248,6 +267,14 @@ def step (s : S) (line : String) : S × String :=
     | some q => let r := sqConvertDegen2X q; ({ s with q := some r.sq }, sqResLine r)
     | none => (s, "bad-op")
   | "swap" :: _ => if s.b.isNone then (s, "noswap") else ({ s with a := s.b, b := s.a }, "ok")
+  | "sample" :: _ =>
+    match (arg? ws "abc").bind abcOf, argNat? ws "seed", argNat? ws "maxn", argNat? ws "maxa" with
+    | some a, some seed, some maxn, some maxa =>
+      if seed == 0 || seed ≥ 4294967296 || maxn == 0 || maxa == 0 then (s, "bad-op") else
+      match sampleMsa EaselModel.Random.Rng.next 100000 a maxn maxa (EaselModel.Random.Rng.create .mersenne (UInt32.ofNat seed)) with
+      | .ok (m, _) => ({ s with a := some m }, "ok")
+      | _ => (s, "nofuel")
+    | _, _, _, _ => (s, "bad-op")
   | "digitize" :: _ =>
     match s.a, (arg? ws "abc").bind abcOf with
     | some m, some a => let r := digitize a m; ({ s with a := some r.msa }, resLine r)
